@@ -10,16 +10,16 @@ import common
 import corechecks
 
 THEOREMS = ['C01_invariant', 'C01_step', 'C01_association', 'C01_partition', 'C01_nodupFast']
-MODULE = 'NautilusVerif.Properties.C01'
+MODULE = [('NautilusVerif.Properties.C01', THEOREMS), ('NautilusVerif.Properties.CoreRun', ['Run_phase', 'C01_run'])]
 FILES = ['nautilus/sampler.py']
-INVARIANTS = ['inshells', 'tlast', 'nodup']
+INVARIANTS = ['inshells', 'tlast', 'nodup', 'run']
 
 
 def run(chk):
     chk.extra['source_digest'] = common.source_digest(FILES)
-    chk.prove(MODULE, THEOREMS)
+    chk.prove(MODULE, None)
     if chk.tier == 'thorough':
-        chk.leanchecker([MODULE])
+        chk.leanchecker([m for m, _ in MODULE])
     results = corechecks.run_all(chk.tier, chk.seed)
     corechecks.report(chk, 'C01', results, INVARIANTS)
     chk.assumptions += ['proposals of bound.sample lie in the cube and inside the bound (hypothesis WF = conclusion of C07; checked on every real proposal by the replay through the model invariants)', 'contains() of a bound is a deterministic function of the point']
